@@ -59,6 +59,7 @@ class Facts:
         # helper / splitting a function does not move a rule's sites out of the function the rule is anchored in
         self.new_fns = set()
         self.aliases = {}
+        self.gone_fns = set()
         if os.environ.get("QV_NO_INLINE") != "1" and os.path.exists(KNOWN_FNS):
             base = json.load(open(KNOWN_FNS))["fns"]
             known = set(base)
@@ -70,6 +71,9 @@ class Facts:
                     self._apply_aliases(self.aliases)
             self.new_fns = {k for k, f in self.fns.items() if f.get("mir") and k.split("::{closure")[0] not in known and not f.get("derived")
                             and k.split("::{closure")[0] in self.fns}
+            # reviewed functions that are gone for good (not renamed): rules that refer to them cannot decide (core.run_rules)
+            self.gone_fns = {k for k in known if k not in self.fns and k.split("::")[0] in self.crates and isinstance(base, dict) and base.get(k)
+                             and not k.startswith("<")}
         self.absorbed = set()
         if self.new_fns:
             called = set()
@@ -195,13 +199,18 @@ class Facts:
     def transparent_callees(self, key):
         """new functions reachable from `key` through calls that are inlined (for HIR-level rules: their bodies count as part of `key`)."""
         out = []
-        work = [key]
-        seen = {key}
+        work = [key] + [k for k in self.fns if k.startswith(key + "::{closure")]
+        seen = set(work)
         while work:
             k = work.pop()
             f = self.fns.get(k)
             if not f or not f.get("mir"):
                 continue
+            if k != key and "::{closure" not in k:
+                for ck in self.fns:
+                    if ck.startswith(k + "::{closure") and ck not in seen:
+                        seen.add(ck)
+                        work.append(ck)
             for b in f["mir"]["blocks"]:
                 t = b["term"]
                 if t["k"] == "call" and not b.get("cleanup"):
